@@ -72,7 +72,14 @@ impl Rng {
             0xffff_ffff_ffff_ffff,
             0x2000_0000_0000_0000,
         ];
-        match self.below(4) {
+        match self.below(5) {
+            // LEB128 size boundaries: +-2^(7k-1) and 2^(7k), each -1/0/+1
+            4 => {
+                let k = self.range(1, 9) as u32;
+                let base = if self.chance(1, 2) { 1u64 << (7 * k - 1) } else { 1u64 << (7 * k) };
+                let v = base.wrapping_add(self.below(3)).wrapping_sub(1);
+                if self.chance(1, 2) { v } else { v.wrapping_neg() }
+            }
             0 => *self.pick(&B),
             1 => self.pick(&B).wrapping_add(self.below(5)).wrapping_sub(2),
             2 => self.next() >> self.below(64),
